@@ -11,6 +11,10 @@ CHECKS = {
          "Generated-input search (proptest, thousands of cases per back end and purpose, seeded library RNG, scripted draws, caller nonces, volume for the randomised signers) against a round-trip oracle plus the spec's payload length; bounded exploration, not proof.",
          "Trusts the harness's raw-bytes Payload, libsodium/aws-lc for key derivation of generated keys, and that aws-lc/libsodium internal RNG values not reached by volume behave like those reached.",
          "property-based testing (proptest): round-trip + spec-length oracle, RNG-as-input", "DESIGN.md §5 C01"),
+ "C05": ("pv-harness", "exploration",
+         "Generated-input search over wrap kinds, key kinds, passwords, KDF parameters and recipient pairs with a round-trip + fixed-length oracle; the rare RSA-KEM ciphertexts with leading zero bytes are constructed (scripted RNG draw r = c^d) rather than waited for.",
+         "Trusts the committed RSA key pool and the bounded KDF parameter ranges; aws-lc/libsodium internal randomness is not scripted.",
+         "property-based testing (proptest): round-trip + fixed-length oracle, scripted RNG draws", "DESIGN.md §5 C05"),
 }
 
 NOT_APPLICABLE = []  # filled while properties are still being built
